@@ -114,6 +114,22 @@ type strace struct {
 	// perDir: message seqnos are counted per direction (dirSeq) instead of globally
 	perDir bool
 	dirSeq map[pair]uint64
+	// lgated: Listen streams whose reader is paused (lgate), until lrelease
+	lgated []*srvListen
+}
+
+// releaseListenGates lets every paused Listen stream go on.
+func (t *strace) releaseListenGates() {
+	for _, l := range t.lgated {
+		l.mu.Lock()
+		g := l.gate
+		l.gate = nil
+		l.mu.Unlock()
+		if g != nil {
+			close(g)
+		}
+	}
+	t.lgated = nil
 }
 
 func newTrace() *strace {
@@ -362,17 +378,30 @@ func (t *strace) apply(o sop) bool {
 			return false
 		}
 		l.setGate(make(chan struct{}))
+		t.lgated = append(t.lgated, l)
 		t.classes["held-listen-stream"] = true
 	case "lrelease":
-		l := t.listens[o.P]
-		if l == nil || !l.gated() {
+		// every held Listen stream of the peer (also one that was replaced meanwhile) is read again
+		any := false
+		var rest []*srvListen
+		for _, l := range t.lgated {
+			if l.who != o.P {
+				rest = append(rest, l)
+				continue
+			}
+			l.mu.Lock()
+			g := l.gate
+			l.gate = nil
+			l.mu.Unlock()
+			if g != nil {
+				close(g)
+				any = true
+			}
+		}
+		t.lgated = rest
+		if !any {
 			return false
 		}
-		l.mu.Lock()
-		g := l.gate
-		l.gate = nil
-		l.mu.Unlock()
-		close(g)
 	case "gate":
 		s := t.live[k]
 		if s == nil || t.gated[k] != nil {
